@@ -375,7 +375,10 @@ fn glyphs_from_u8_data(font_height: usize, mut data: &[u8]) -> HashMap<char, Gly
         let glyph = Glyph {
             data: data[..font_height].into(),
         };
-        glyphs.insert(unsafe { char::from_u32_unchecked(ch as u32) }, glyph);
+        let Some(key) = char::from_u32(ch as u32) else {
+            break;
+        };
+        glyphs.insert(key, glyph);
 
         data = &data[font_height..];
         ch += 1;
